@@ -73,10 +73,13 @@ def scan_cases(run, rng, cases):
             else:
                 run.violation(info, tag="scan")
             continue
+        if np.asarray(got).dtype.kind in "Mm":          # datetimes / timedeltas are compared through their int64 representation
+            got = np.asarray(got).view("int64")
+        vf = v.view("int64").astype(float) if v.dtype.kind in "Mm" else v.astype(float)
         if dtype.startswith("float"):
             want = oracle(func, v, lab)
         else:
-            want = oracle(func, v.astype(float), lab) if func == "nancumsum" else v.astype(float)
+            want = oracle(func, vf, lab) if func == "nancumsum" else vf
         valid_pos = ~np.isnan(lab.astype(float))       # positions with a missing label: unspecified
         ok = got.shape == v.shape and np.allclose(np.asarray(got, dtype=float)[valid_pos], want[valid_pos], equal_nan=True)
         if not ok:
@@ -94,7 +97,8 @@ def scan_cases(run, rng, cases):
             try:
                 with warnings.catch_warnings():
                     warnings.simplefilter("ignore")
-                    eager = np.asarray(flox.groupby_scan(v, lab, func=func), dtype=float)
+                    eager = np.asarray(flox.groupby_scan(v, lab, func=func))
+                    eager = eager.view("int64").astype(float) if eager.dtype.kind in "Mm" else eager.astype(float)
             except Exception:  # noqa: BLE001
                 eager = None
             if eager is not None and not np.allclose(np.asarray(got, dtype=float), eager, equal_nan=True):
@@ -140,6 +144,14 @@ def gen(rng, n, exhaustive_upto):
             vals = [rng.randint(-3, 3) for _ in range(m)]
         chunks = None if rng.random() < 0.25 else list(G.random_composition(rng, m))
         cases.append((func, vals, labels, chunks, dtype))
+    # datetime64 / timedelta64 data without NaT (NaT filling is known finding KF09): ffill/bfill keep the values, timedelta sums run on int64
+    for _ in range(max(6, n // 60)):
+        m = rng.randint(3, 12)
+        labels = G.rand_labels(rng, m, rng.randint(1, 3))
+        if rng.random() < 0.5:
+            cases.append((rng.choice(["ffill", "bfill"]), [rng.randint(0, 10 ** 6) for _ in range(m)], labels, list(G.random_composition(rng, m)), "datetime64[ns]"))
+        else:
+            cases.append(("nancumsum", [rng.randint(-10 ** 6, 10 ** 6) for _ in range(m)], labels, list(G.random_composition(rng, m)), "timedelta64[ns]"))
     # narrow integers whose running / per-block group totals leave the input width (int8: 127, uint8: 255, int16: 32767)
     for _ in range(max(6, n // 60)):
         dtype = rng.choice(["bool", "int8", "uint8", "int16"])
